@@ -1,7 +1,7 @@
 (* C04 -- Serde round trip: Rust data -> S-expression value -> Rust data. *)
-From Coq Require Import SpecFloat.
+From Coq Require Import SpecFloat Lia ZifyNat ZifyN.
 Require Import Base Value Float NumberOps ListOps SerdeModel SerdeProofs.
-Require Import PrintOptions Printer ParseOptions Reader Parser TextProofs RoundtripProofs.
+Require Import PrintOptions Printer ParseOptions Reader Parser TextProofs RoundtripProofs SerdeTextProofs.
 
 (* For every type of the universe whose structs (and struct variants) have
    distinct field names, and every inhabitant d (ser accepts exactly the
@@ -47,6 +47,45 @@ Proof.
 Qed.
 Print Assumptions C04_text_roundtrip_partial.
 
+(* The hypothesis on the value, discharged from the type and the data: for a
+   type with no float in it, integers of at most 64 bits and field and variant
+   names that are plain symbols (text_ty; ident_b is a computable sufficient
+   condition: Rust identifiers and their snake/kebab-case renamings), and data
+   as Rust has it (chars are scalar values, Strings are UTF-8, bytes are u8:
+   text_data), what the serializer produces lies in the C01 class and is
+   nested no deeper than the type. *)
+Theorem C04_serialized_in_class : forall alpha is_f32 t d v,
+  text_ty alpha t -> text_data d -> ser is_f32 t d = Some v -> rt_ok alpha v.
+Proof. intros alpha is_f32 t d v Ht Hd Hs. exact (ser_in_class alpha is_f32 t Ht d v Hd Hs). Qed.
+Print Assumptions C04_serialized_in_class.
+
+Theorem C04_serialized_depth : forall is_f32 t d v, ser is_f32 t d = Some v -> (rdepth v <= tdepth t)%nat.
+Proof. intros is_f32 t d v Hs. exact (ser_shallow is_f32 t d v Hs). Qed.
+Print Assumptions C04_serialized_depth.
+
+Theorem C04_identifier_names : forall alpha s, ident_b s = true -> plain_symbol alpha s.
+Proof. exact ident_plain. Qed.
+Print Assumptions C04_identifier_names.
+
+(* Hence the text round trip for every such type and all its data; what is
+   still missing from the full statement is floats and printer / parser
+   options other than the defaults. *)
+Theorem C04_text_roundtrip_float_free_partial : forall (cast_f32 : f64 -> f64) (is_f32 : f64 -> bool),
+  (forall f, is_f32 f = true -> cast_f32 f = f) ->
+  forall ryu alpha fast std_parse k t, wf_ty t -> text_ty alpha t -> (tdepth t <= 127)%nat ->
+  forall d v, text_data d -> ser is_f32 t d = Some v ->
+  match from_trait default_ro alpha fast std_parse k (bytes_events (print0 ryu v)) with
+  | POk v' => de cast_f32 t v' = SOk d
+  | PErr _ => False
+  end.
+Proof.
+  intros cast_f32 is_f32 Hc ryu alpha fast std_parse k t Hw Ht Hdep d v Hd Hs.
+  apply (C04_text_roundtrip_partial cast_f32 is_f32 Hc ryu alpha fast std_parse k t Hw d v Hs).
+  - exact (ser_in_class alpha is_f32 t Ht d v Hd Hs).
+  - pose proof (ser_shallow is_f32 t d v Hs). lia.
+Qed.
+Print Assumptions C04_text_roundtrip_float_free_partial.
+
 (* Non-vacuity: a struct with an option field, a tuple variant, a map. *)
 Example C04_nonvacuous :
   let t := TyStruct [([110], TyString); ([97], TyOption (TyInt false 8));
@@ -62,4 +101,25 @@ Proof.
     repeat (constructor; [cbn [In]; intros H; repeat (destruct H as [H|H]; [discriminate H|]); exact H|]).
     constructor.
   - vm_compute. reflexivity.
+Qed.
+
+(* ... and the same type and data meet the hypotheses of the text theorem *)
+Example C04_text_nonvacuous :
+  let t := TyStruct [([110], TyString); ([97], TyOption (TyInt false 8));
+                     ([115], TyEnum [([68], VUnit); ([82], VTuple [TyInt true 32; TyInt true 32])]);
+                     ([109], TyMap TyChar (TySeq TyBool))] in
+  let d := DStruct [DString [120]; DNone; DEnum [82] (PTuple [DInt (-3); DInt 4]);
+                    DMap [(DChar 97, DSeq [DBool true; DBool false])]] in
+  text_ty (fun _ => false) t /\ text_data d /\ (tdepth t <= 127)%nat.
+Proof.
+  intros t d. split; [|split].
+  - unfold t. cbn [text_ty text_var fst snd].
+    repeat match goal with
+           | |- _ /\ _ => split
+           | |- True => exact I
+           | |- plain_symbol _ _ => apply ident_plain; reflexivity
+           | |- (_ <= _)%N => lia
+           end.
+  - unfold d. cbn [text_data text_payload fst snd]. repeat split; reflexivity.
+  - vm_compute. repeat constructor.
 Qed.
